@@ -818,6 +818,14 @@ func (vm *vm) handleThrow(arg interface{}) *Exception {
 		vm.sp = int(tf.sp)
 		vm.stash = tf.stash
 		vm.privEnv = tf.privEnv
+		if ex == nil {
+			// Uncatchable exception (interrupt, stack overflow): no script code may run,
+			// drop the pending iterators instead of calling their return().
+			iterTail := vm.iterStack[tf.iterLen:]
+			for i := range iterTail {
+				iterTail[i] = iterStackItem{}
+			}
+		}
 		_ = vm.restoreStacks(tf.iterLen, tf.refLen)
 
 		if tf.catchPos == tryPanicMarker {
